@@ -286,6 +286,7 @@ def step (d : D) (ws : List String) : D × String :=
       let (d', out) := rpc d (.batchWrite bops)
       if out.startsWith "svc=ok" then (d', "scanrace atomic-old") else (d', "scanrace err:batch")
     | none => (d, "bad-op")
+  | ["scancancel", _pfx] => (d, "scancancel ok")   -- a scan whose client goes away changes nothing and holds nothing
   | ["dump"] => (d, s!"dump svc={digest d.st.eng} emb={digest d.tw.eng}")
   | ["probe"] => (d, "probe facade=0 rpc=0")
   | ["close"] =>
